@@ -298,8 +298,8 @@ class Walker:
         return ks
 
     # ------------------------------------------------------------ walking
-    def reachable(self, val, start=0):
-        """Blocks reachable from `start` under the valuation."""
+    def reachable(self, val, start=0, avoid=frozenset()):
+        """Blocks reachable from `start` under the valuation (never entering blocks in `avoid`)."""
         seen = set()
         st = [(start, frozenset())]
         seen.add((start, frozenset()))
@@ -311,6 +311,8 @@ class Walker:
             for lab, tgt in self.cfg.succ[bb]:
                 if filt is not None and tgt not in filt:
                     continue
+                if tgt in avoid:
+                    continue
                 s = (tgt, frozenset(k2))
                 if s not in seen:
                     seen.add(s)
@@ -318,13 +320,15 @@ class Walker:
                     st.append(s)
         return out
 
-    def table(self, targets, start=0):
-        """{valuation tuple: set(target names reachable)} over all valuations; targets: name -> set of blocks."""
+    def table(self, targets, start=0, avoid=frozenset()):
+        """{valuation tuple: set(target names reachable)} over all valuations; targets: name -> set of blocks.
+        With `avoid`, a target is reachable only along paths that do not pass the avoided blocks
+        (used for 'must pass S before T' under a valuation)."""
         res = {}
         names = [a.name for a in self.atoms]
         for combo in itertools.product(*[a.values for a in self.atoms]):
             val = dict(zip(names, combo))
-            r = self.reachable(val, start)
+            r = self.reachable(val, start, frozenset(avoid))
             res[combo] = set(n for n, bbs in targets.items() if r & set(bbs))
         return names, res
 
